@@ -1,4 +1,4 @@
-From Coq Require Import ZArith QArith Qminmax List Lia Lra Psatz.
+From Coq Require Import ZArith QArith Qminmax List Lia Lqa.
 From Elex Require Import Base.QRound Model.Aggregate Model.Floor.
 Import ListNotations.
 Open Scope Q_scope.
